@@ -4,6 +4,7 @@ import (
 	"bytes"
 	"context"
 	"errors"
+	"io"
 	"fmt"
 	"net"
 	"strings"
@@ -24,9 +25,12 @@ type c06Case struct {
 	Client    bool   `json:"client"`
 	Code      int    `json:"code"`       // for recv: -1 = empty payload, -2 = one-byte payload
 	ReasonLen int    `json:"reason_len"` //
-	Timing    string `json:"timing"`     // idle | after-msg | read-pending | read-after
+	Timing    string `json:"timing"`     // idle | after-msg | read-pending | read-after | partial-fin | partial-frag1 | partial-frag2 | unread-queued
 	Calls     string `json:"calls,omitempty"`
+	Part      int    `json:"part,omitempty"` // partial-*: how many bytes of the 200-byte message the application reads before Close
 }
+
+var c06PartialTimings = []string{"partial-fin", "partial-frag1", "partial-frag2", "unread-queued"}
 
 func c06Reason(n int, code int) string {
 	var sb strings.Builder
@@ -139,6 +143,44 @@ func runC06Local(t fataler, c c06Case) string {
 	case "read-pending":
 		readDone = e.Call(func() { _, _, readErr = conn.Read(context.Background()) })
 		synctest.Wait()
+	case "partial-fin", "partial-frag1", "partial-frag2", "unread-queued":
+		// the application has read only a part of a message when it calls Close:
+		// what is left of it, and everything queued behind it, is to be discarded
+		body := expand(ckText, 7, 200)
+		k := c.Part % 200
+		switch c.Timing {
+		case "partial-fin", "unread-queued":
+			p.send(ref.Frame{Fin: true, Opcode: ref.OpText, Payload: body})
+		case "partial-frag1", "partial-frag2":
+			p.send(ref.Frame{Opcode: ref.OpText, Payload: body[:100]})
+			p.send(ref.Frame{Fin: true, Opcode: ref.OpCont, Payload: body[100:]})
+			k = c.Part % 100
+			if c.Timing == "partial-frag2" {
+				k += 100
+			}
+		}
+		if c.Timing == "unread-queued" {
+			p.send(ref.Frame{Fin: true, Opcode: ref.OpBinary, Payload: body[:77]})
+			p.send(ref.Frame{Opcode: ref.OpText, Payload: body[:3]})
+			p.send(ref.Frame{Fin: true, Opcode: ref.OpCont})
+		}
+		var perr error
+		done := e.Call(func() {
+			_, r, err := conn.Reader(context.Background())
+			if err != nil {
+				perr = err
+				return
+			}
+			got := make([]byte, k)
+			if _, err := io.ReadFull(r, got); err != nil {
+				perr = err
+			} else if !bytes.Equal(got, body[:k]) {
+				perr = errors.New("wrong bytes")
+			}
+		})
+		if !within(done, 10*time.Second) || perr != nil {
+			return fmt.Sprintf("reading %d bytes of the message before Close failed: %v", k, perr)
+		}
 	}
 	reason := c06Reason(c.ReasonLen, c.Code)
 	var cerr error
@@ -343,7 +385,7 @@ func runC06Recv(t fataler, c c06Case) string {
 
 func TestC06(t *testing.T) {
 	rec := evid.For("C06")
-	rec.Rule = "local Close over every wire code 0..65535 plus out-of-range values x reason-length class x role x timing; received Close frame over every code x reason class x role x timing (scripted raw peer, virtual time); rapid-drawn mixed cases incl. library<->library and Close/CloseNow call sequences. Non-trivial: sendable code with non-empty reason, or an unsendable code/oversize reason, or repeated close calls. distinct = (kind, code class, reason class, role, timing[, call sequence])."
+	rec.Rule = "local Close over every wire code 0..65535 plus out-of-range values x reason-length class x role x timing (idle, after a write, with a Read pending, after the application read only k of the 200 bytes of an unfragmented or fragmented message, with further unread messages queued); received Close frame over every code x reason class x role x timing (scripted raw peer, virtual time); rapid-drawn mixed cases incl. library<->library and Close/CloseNow call sequences. Non-trivial: sendable code with non-empty reason, or an unsendable code/oversize reason, or repeated close calls. distinct = (kind, code class, reason class, role, timing[, call sequence])."
 	seed := evid.Seed()
 	var rc c06Case
 	if replayCase(t, &rc) {
@@ -414,6 +456,11 @@ func TestC06(t *testing.T) {
 				one(c06Case{Kind: "recv", Client: cl, Code: -1, Timing: tm})
 				one(c06Case{Kind: "recv", Client: cl, Code: -2, Timing: tm})
 			}
+			for _, tm := range c06PartialTimings {
+				for _, part := range []int{0, 1, 50, 99} {
+					one(c06Case{Kind: "local", Client: cl, Code: 1000, ReasonLen: 4, Timing: tm, Part: part})
+				}
+			}
 			if thorough {
 				for n := 0; n <= 130; n++ {
 					one(c06Case{Kind: "local", Client: cl, Code: 1000, ReasonLen: n, Timing: "idle"})
@@ -455,7 +502,10 @@ func TestC06Mixed(t *testing.T) {
 		c := c06Case{Kind: kind, Client: client, Code: code, ReasonLen: rl}
 		switch kind {
 		case "local":
-			c.Timing = rapid.SampledFrom([]string{"idle", "after-msg", "read-pending"}).Draw(rt, "timing")
+			c.Timing = rapid.SampledFrom(append([]string{"idle", "after-msg", "read-pending"}, c06PartialTimings...)).Draw(rt, "timing")
+			if strings.HasPrefix(c.Timing, "partial") || c.Timing == "unread-queued" {
+				c.Part = rapid.IntRange(0, 199).Draw(rt, "part")
+			}
 		case "recv":
 			c.Timing = rapid.SampledFrom([]string{"read-pending", "read-after", "after-msg", "read-pending-hangup", "read-after-hangup"}).Draw(rt, "timing")
 			if rl > 123 {
